@@ -433,6 +433,10 @@ def run(tier: str, rng: random.Random, proof_ok: bool) -> dict:
     bad, n = self_contexts(tier, rng)
     rep["violations"] += bad
     rep["coverage"]["self_containing_contexts"] = n
+    from .hist import odd_equality_violation
+    oe = odd_equality_violation("C18")     # a context returns the inner verdict also for values with unusual equality
+    if oe:
+        rep["violations"].append(oe)
     return rep
 
 
@@ -444,4 +448,6 @@ def replay(path: str) -> int:
         r = self_context(rc["selfctx"], from_json(rc["x"]), rc["mode"])
         print("property violated on this input: " + r if r else "property holds on this input")
         return 1 if r else 0
-    return generic_replay(path, oracle)
+    from .hist import replay_special
+    r = replay_special(rc, "C18") if isinstance(rc, dict) else None
+    return r if r is not None else generic_replay(path, oracle)
